@@ -143,6 +143,13 @@ func (v *ControllerVisitor) visitController(controllerNode *ast.TypeSpec) (metad
 
 	// Go over all enumerated source files and look for receivers for the controller
 	for _, file := range v.context.ArbitrationProvider.GetAllSourceFiles() {
+		// Receivers can only be declared in the controller's own package.
+		// Skip files belonging to other packages so a same-named controller elsewhere doesn't donate its methods
+		filePkg, pkgErr := v.context.ArbitrationProvider.Pkg().GetPackageForFile(file)
+		if pkgErr == nil && filePkg != nil && filePkg.PkgPath != controllerMeta.Struct.PkgPath {
+			continue
+		}
+
 		for _, declaration := range file.Decls {
 			switch funcDeclaration := declaration.(type) {
 			case *ast.FuncDecl:
